@@ -4,7 +4,7 @@ import os
 ID = "C44"
 LEAN_PROPS = "Tahoe.Props.C44"
 DRIVER = "C44"
-GENERATED = []
+GENERATED = ["immutable"]
 SOURCES = ["src/allmydata/immutable/offloaded.py", "src/allmydata/immutable/upload.py"]
 DESIGN_REF = "DESIGN.md §2 C44"
 TECHNIQUE = ("Lean 4 model of the helper's ciphertext fetch (append-only partial file, resume offset = its size, forward-only client "
@@ -25,7 +25,8 @@ LEVEL_TEXT = ("PARTIAL. Proved for every ciphertext, positive chunk size and eve
 LEVEL_NOTE = ("Lean kernel + standard axioms; encoder abstract (C01/C36 are about the real one); hand-written model; the harness shrinks "
               "CHKCiphertextFetcher.CHUNK_SIZE for most scenarios so that small files have many interruption points (one scenario per "
               "run uses the real 50 KiB).")
-RULE = ("function-level histories of remote_read_encrypted on the real client reader (25 fixed + random); a fixed corpus first (a 217145-byte file, production 50 KiB chunk sizes on helper and client side, helper upload cut "
+RULE = ("twin grids at sizes 0, 1, 54, 55, 56, 57 and around segment boundaries for three fixed parameter sets (+ random ones): "
+        "cap string, verify-cap, shares and which uploader was picked, literal uploads contact nobody; function-level histories of remote_read_encrypted on the real client reader (25 fixed + random); a fixed corpus first (a 217145-byte file, production 50 KiB chunk sizes on helper and client side, helper upload cut "
         "after every chunk 0..last and after the complete fetch, by error / disconnect / helper restart, a resume of a resume, and a "
         "7-chunk variant with both chunk sizes 1000), each resumed and compared with the direct upload (caps, shares, downloaded "
         "plaintext); then seeded scenarios: k/N/servers/segment size/file size x chunk size x a list of 0..3 disturbed attempts (error on the i-th "
@@ -575,6 +576,106 @@ def run_preexisting(ctx, s):
             gD.close()
 
 
+def attach_helper(rt, g, c, hdir):
+    """a real offloaded.Helper behind LocalWrappers, injected into the client's Uploader"""
+    import grid
+    from twisted.internet import defer
+    from allmydata.immutable import offloaded
+
+    class HelperProxy:
+        def __init__(self, helper):
+            self.h, self.owner = helper, None
+
+        def remote_get_version(self):
+            return self.h.remote_get_version()
+
+        def remote_upload_chk(self, si):
+            d = defer.maybeDeferred(self.h.remote_upload_chk, si)
+
+            def _wrap(res):
+                hur, uh = res
+                if uh is not None:
+                    uh = grid.LocalWrapper(uh, rt, self.owner, "uploadhelper")
+                return (hur, uh)
+            return d.addCallback(_wrap)
+    g.broker.get_stub_server = lambda sid: [x for x in g.broker.servers if x.get_serverid() == sid][0]
+    helper = offloaded.Helper(hdir, g.broker, c._secret_holder, None, None)
+    px = HelperProxy(helper)
+    w = grid.LocalWrapper(px, rt, name="helper")
+    px.owner = w
+    w.version = helper.remote_get_version()
+    c.getServiceNamed("uploader")._got_versioned_helper(w)
+    return helper, w
+
+
+def all_calls(g):
+    return sum(sum(w.counter_by_methname.values()) for w in g.wrappers.values())
+
+
+def size_probe(ctx, paramsets, label):
+    """Twin grids (one client with the real Helper attached, one without) uploading the same bytes at the LIT/CHK boundary and
+    around segment boundaries: same kind of cap, same cap string, same shares; a literal upload contacts neither helper nor servers."""
+    import grid
+    from allmydata.immutable import upload, offloaded
+    from allmydata import uri as _uri
+    lines, wants, cases = [], [], []
+    saved_chunk = offloaded.CHKCiphertextFetcher.CHUNK_SIZE
+    for (k, n, servers, maxseg, seed) in paramsets:
+        with grid.Runtime(seed=seed, policy="random") as rt:
+            gH = grid.Grid(grid.fresh_dir("c44szH"), rt, num_servers=servers, k=k, happy=1, n=n, max_segment_size=maxseg)
+            gD = grid.Grid(grid.fresh_dir("c44szD"), rt, num_servers=servers, k=k, happy=1, n=n, max_segment_size=maxseg)
+            offloaded.CHKCiphertextFetcher.CHUNK_SIZE = 50
+            try:
+                cH, cD = gH.clients[0], gD.clients[0]
+                helper, w = attach_helper(rt, gH, cH, os.path.join(gH.basedir, "helper"))
+                sizes = [0, 1, 54, 55, 56, 57, maxseg - 1, maxseg, maxseg + 1, 2 * maxseg, 2 * maxseg + 1]
+                for size in sorted(set(x for x in sizes if x >= 0)):
+                    case = {"probe": "size", "k": k, "n": n, "num_servers": servers, "maxseg": maxseg, "seed": seed, "size": size}
+                    data = bytes((i * 7 + size * 31 + seed) % 251 for i in range(size))
+                    h0, hw0, sH0, sD0 = helper._counters["chk_upload_helper.upload_requests"], sum(w.counter_by_methname.values()), all_calls(gH), all_calls(gD)
+                    rH = rt.wait(cH.upload(upload.Data(data, convergence=b"c44-sizes-conv!!")))
+                    rt.settle()
+                    rD = rt.wait(cD.upload(upload.Data(data, convergence=b"c44-sizes-conv!!")))
+                    rt.settle()
+                    asked = helper._counters["chk_upload_helper.upload_requests"] - h0 + sum(w.counter_by_methname.values()) - hw0
+                    callsH, callsD = all_calls(gH) - sH0, all_calls(gD) - sD0
+                    capH, capD = rH.get_uri(), rD.get_uri()
+                    kindH = "literal" if capH.startswith(b"URI:LIT:") else ("assisted" if asked else "direct")
+                    kindD = "literal" if capD.startswith(b"URI:LIT:") else "direct"
+                    case.update(helper_cap=capH.decode()[:40], direct_cap=capD.decode()[:40], helper_asked=asked)
+                    if capH != capD:
+                        ctx.violation("a %d-byte file uploaded by a client with a helper got %s, the same client without a helper got %s" % (
+                                      size, capH.decode()[:60], capD.decode()[:60]), case, "helper-cap-differs-from-direct:size-%d" % size)
+                    if rH.get_verifycapstr() != rD.get_verifycapstr():
+                        ctx.violation("verify-cap differs between the helper and the direct path for a %d-byte file" % size, case,
+                                      "helper-verifycap-differs-from-direct:size-%d" % size)
+                    if kindD == "literal" and (asked or callsH or callsD):
+                        ctx.violation("a literal-sized upload (%d bytes) contacted the helper (%d calls) or storage servers (%d / %d calls)" % (
+                                      size, asked, callsH, callsD), case, "literal-upload-contacted-helper-or-servers:size-%d" % size)
+                    if not capD.startswith(b"URI:LIT:") and not capH.startswith(b"URI:LIT:"):
+                        si = _uri.from_string(capD).get_storage_index()
+                        sh_h = {b: share_data(p) for (a, b, p) in gH.share_files(si)}
+                        sh_d = {b: share_data(p) for (a, b, p) in gD.share_files(si)}
+                        if sh_h != sh_d:
+                            ctx.violation("shares of a %d-byte file differ between the helper and the direct path" % size, case,
+                                          "helper-shares-differ-from-direct:size-%d" % size)
+                    elif capD.startswith(b"URI:LIT:") != capH.startswith(b"URI:LIT:"):
+                        pass   # already reported as differing caps
+                    lines += ["pick 1 %d" % size, "pick 0 %d" % size]
+                    wants += [kindH, kindD]
+                    cases += [dict(case, path="with-helper"), dict(case, path="without-helper")]
+                    ctx.case(("size", label, k, n, maxseg, size))
+                    ctx.count("size-probe:%s:%s" % ("lit" if kindD == "literal" else "chk", kindH))
+            finally:
+                offloaded.CHKCiphertextFetcher.CHUNK_SIZE = saved_chunk
+                gH.close()
+                gD.close()
+    ctx.compare("choice of uploader (literal / helper-assisted / direct) by size", cases, wants, ctx.model(lines))
+
+
+SIZE_CORPUS = [(1, 2, 2, 64, 4470), (2, 3, 3, 128, 4471), (3, 5, 4, 60, 4472)]
+
+
 def reader_probe(ctx, rng, n):
     """function-level correspondence for the client-side reader: real EncryptAnUploadable (CHUNKSIZE patched per case) behind a
     real RemoteEncryptedUploadable, answering forward (sometimes backward / beyond-EOF) remote_read_encrypted calls"""
@@ -637,6 +738,10 @@ def run(ctx):
     except Exception:
         pass
     pre = []
+    if ctx.replay and isinstance(ctx.replay.get("case"), dict) and ctx.replay["case"].get("probe") == "size":
+        cs = ctx.replay["case"]
+        size_probe(ctx, [(cs["k"], cs["n"], cs["num_servers"], cs["maxseg"], cs["seed"])], "replay")
+        return
     if ctx.replay and isinstance(ctx.replay.get("case"), dict) and ctx.replay["case"].get("probe") == "reader":
         import random
         reader_probe(ctx, random.Random("c44-reader-corpus"), 25)
@@ -668,7 +773,12 @@ def run(ctx):
     if not ctx.replay:
         import random
         reader_probe(ctx, random.Random("c44-reader-corpus"), 25)        # fixed
+        size_probe(ctx, SIZE_CORPUS, "corpus")                           # fixed: LIT/CHK boundary and segment boundaries
         if not corpus_only:
+            zr = ctx.subrng("sizes")
+            size_probe(ctx, [(kk, nn, zr.randrange(1, 6), zr.choice([56, 64, 100, 128, 1000]), zr.randrange(1 << 30))
+                             for (kk, nn) in [(lambda n_: (zr.randrange(1, n_ + 1), n_))(zr.choice([2, 3, 4, 5]))
+                                              for _ in range(ctx.budget(2, 60))]], "random")
             reader_probe(ctx, ctx.subrng("reader"), ctx.budget(60, 1500))
         run_main(corpus())       # fixed corpus first: every cut point of a multi-chunk file, production chunk sizes
         pre = pre_corpus() + ([] if corpus_only else pre)
